@@ -35,6 +35,12 @@ def to_hy(t, ind=0):
         return f"(defclass {t[1]} [] {body_hy(t[2])})"
     if k == "setv":
         return f"(setv {t[1]} {t[2]})"
+    if k == "bind":
+        # other ways of binding a name in the current Python scope: an assignment whose value needs statements (the
+        # compiler renames the value's temporary to the target), setx, a for-loop target
+        how, n, v = t[1], t[2], t[3]
+        return {"setv-of-try": f"(setv {n} (try {v} (finally None)))", "setx": f"(do (setx {n} {v}) None)",
+                "for": f"(for [{n} [{v}]] None)"}[how]
     if k == "log":
         return f'(LOG "{t[1]}" (fn [] {t[1]}))'
     if k in ("nonlocal", "global"):
@@ -143,6 +149,11 @@ def to_py(prog):
                     r = resolve(t[1], env)
                     n = r[0] if r else t[1]
                     emit(f"{n} = {t[2]}", ind)
+                    note(pyscope, n)
+                elif k == "bind":
+                    r = resolve(t[2], env)
+                    n = r[0] if r else t[2]
+                    emit(f"for {n} in [{t[3]}]: pass" if t[1] == "for" else f"{n} = {t[3]}", ind)
                     note(pyscope, n)
                 elif k == "log":
                     r = resolve(t[1], env)
@@ -304,6 +315,7 @@ def spine_programs(levels, pre_opts, post_opts, inner_opts, wrap_function=False)
 
 
 SETV = lambda n: (lambda v: ("setv", n, v()))
+BIND = lambda how, n: (lambda v: ("bind", how, n, v()))
 LOG = lambda n: (lambda v: ("log", n))
 NONLOCAL = lambda n: (lambda v: ("nonlocal", n))
 GLOBAL = lambda n: (lambda v: ("global", n))
